@@ -3,7 +3,10 @@
      vtree ::= L <var> | N <vtree> <vtree>
      ops   ::= t | f | v <var> <pol> | n <i> | a <i> <j> | o <i> <j> | x <i> <j> | q <i> <j>
              | i <i> <j> <k> | c <i> <var> <0|1> | e <i> <var> | m <i> <var> <j>
+             | k <n> (<len> <lit>*)^n          compile_cnf; lit = 2*var + polarity; model: given clause order
    out:   <id> <unfolding of every pool entry> # <index of the first equal pool entry, per entry>
+          with compression off AND a compile_cnf in the program the clause order after the code's
+          sort is not determined, hence only denotations are: <id> <truth table of every entry> # tt
    (the unique-table capacity <cap> has no counterpart in the model) *)
 let rec parse_vt = function
   | "L" :: v :: r -> (VLeaf (n_of_int (int_of_string v)), r)
@@ -25,6 +28,15 @@ let rec parse_ops acc = function
   | "c" :: i :: v :: b :: r -> parse_ops (OCond (ni i, vi v, b = "1") :: acc) r
   | "e" :: i :: v :: r -> parse_ops (OExists (ni i, vi v) :: acc) r
   | "m" :: i :: v :: j :: r -> parse_ops (OCompose (ni i, vi v, ni j) :: acc) r
+  | "k" :: n :: r ->
+    let rec clause k acc r = if k = 0 then (List.rev acc, r) else
+      (match r with x :: r' -> let c = int_of_string x in clause (k - 1) ((n_of_int (c / 2), c land 1 = 1) :: acc) r'
+                  | [] -> failwith "bad clause") in
+    let rec clauses k acc r = if k = 0 then (List.rev acc, r) else
+      (match r with len :: r' -> let (c, r'') = clause (int_of_string len) [] r' in clauses (k - 1) (c :: acc) r''
+                  | [] -> failwith "bad cnf") in
+    let (f, r') = clauses (int_of_string n) [] r in
+    parse_ops (OCnf (f, f) :: acc) r'
   | _ -> failwith "bad op"
 let rec show = function
   | ST -> "T"
@@ -36,13 +48,25 @@ let rec show = function
   | SOr (c, i, els) ->
     let es = List.sort compare (List.map (fun (p, s) -> show p ^ ":" ^ show s) els) in
     (if c then "~" else "") ^ "O" ^ string_of_int (int_of_nat i) ^ "[" ^ String.concat ";" es ^ "]"
+let tt p =
+  String.init 32 (fun j ->
+    let base = 124 - 4 * j in
+    let nib = ref 0 in
+    for b = 0 to 3 do
+      let row = base + b in
+      if sden p (fun v -> (row lsr (int_of_n v)) land 1 = 1) then nib := !nib lor (1 lsl b)
+    done;
+    "0123456789abcdef".[!nib])
 let () =
   List.iter (fun line ->
     match split_ws line with
     | id :: comp :: _cap :: rest ->
       let (t, r1) = parse_vt rest in
       let ops = match r1 with ";" :: r -> parse_ops [] r | [] -> [] | _ -> failwith "bad case" in
+      let tt_mode = comp <> "1" && List.exists (function OCnf _ -> true | _ -> false) ops in
       (match run_prog t (comp = "1") ops with
+       | Ok pool when tt_mode ->
+         print_endline (String.concat " " (id :: List.map tt pool @ ["#"; "tt"]))
        | Ok pool ->
          let arr = Array.of_list pool in
          let strs = Array.map show arr in
